@@ -1,5 +1,6 @@
 import NemoVerif.Drive.C01
 import NemoVerif.Models.PipelineCtx
+import NemoVerif.Models.PipelineCall
 
 /- C02 shares the `Pipeline` driver of C01 (requests `C02.conv` are the same as `C01.conv`).
 
@@ -8,6 +9,11 @@ import NemoVerif.Models.PipelineCtx
              "in": [[id, pure]..], "out": [[id, pure]..],
              "turns": [{"user": s, "bot": s, "vin": [[id, v]..], "vout": [[id, v]..], "dialog_fault": b, "no_in": b, "no_out": b}]}
    response {"turns": [{"in_calls": [[id, text]..], "user_msg": s|null, "out_calls": [[id, text]..], "uttered": s|null}]} -/
+/- `C02.calls`: the call-level model (`Models/PipelineCall.lean`) - conversations in which calls end by a propagated failure.
+   request  as `C01.conv`; a turn may carry "llm_x": n | null, "cancel": n | null (verdict "e" = the rail's LLM call fails);
+            "live": b (2.x: the caller keeps one live State object and hands the object to every call),
+            "remember": b (default false: the code as it is; true = the instance remembers the live object of the last returned state)
+   response {"turns": [{"steps", "reply", "hist" (the state handed back, null if the call raised), "left" (2.x: the object as the call left it)}]} -/
 namespace NemoVerif.Drive.C02
 open Lean NemoVerif NemoVerif.Drive NemoVerif.Pipeline NemoVerif.PipelineCtx
 
@@ -35,8 +41,42 @@ def optStrToJson : Option Text → Json
   | some s => .str s
   | none => .null
 
+def optNat (j : Json) (k : String) : Option Nat :=
+  match j.getObjVal? k with
+  | .ok v => v.getNat?.toOption
+  | .error _ => none
+
+def histV2ToJson (h : HistV2) : Json := Json.mkObj [("orip", .bool h.orip), ("talking", .bool h.talking)]
+
 def handle (op : String) (j : Json) : Except String Json := do
   match op with
+  | "calls" =>
+    let ver ← (← j.getObjVal? "ver").getStr?
+    let cfg ← C01.cfgOfJson ver (← j.getObjVal? "cfg")
+    let tjs := (← (← j.getObjVal? "turns").getArr?).toList
+    let turns ← tjs.mapM C01.turnOfJson
+    let faults := tjs.map fun tj => ({ llm := optNat tj "llm_x", cancel := optNat tj "cancel" } : PipelineCall.Fault)
+    let opts := tjs.map fun tj =>
+      ({ input := !C01.getBoolD tj "no_in" false, output := !C01.getBoolD tj "no_out" false } : CallOpts)
+    if ver == "1.0" then
+      let rs := PipelineCall.convCallsV1 cfg initV1 (opts.zip (turns.zip faults))
+      pure (Json.mkObj [("turns", Json.arr (rs.map fun (tr, rep, h) =>
+        Json.mkObj [("steps", Json.arr (tr.map C01.stepToJson).toArray), ("reply", C01.replyToJson rep),
+          ("hist", match h with
+            | some h => Json.mkObj [("skip", .bool h.skip), ("texts", Json.arr (h.texts.map Json.str).toArray)]
+            | none => .null)]).toArray)])
+    else if C01.getBoolD j "live" false then
+      -- the caller keeps ONE live State object and hands it to every call
+      let rs := PipelineCall.convLiveV2 (C01.getBoolD j "user_reset" Generated.C01.v2FlagResetOnUserMessage) cfg initV2 (turns.zip faults)
+      pure (Json.mkObj [("turns", Json.arr (rs.map fun (tr, rep, h) =>
+        Json.mkObj [("steps", Json.arr (tr.map C01.stepToJson).toArray), ("reply", C01.replyToJson rep),
+          ("hist", histV2ToJson h), ("left", histV2ToJson h)]).toArray)])
+    else
+      let rs := PipelineCall.convCallsV2 (C01.getBoolD j "remember" false) cfg none initV2 (turns.zip faults)
+      pure (Json.mkObj [("turns", Json.arr (rs.map fun o =>
+        Json.mkObj [("steps", Json.arr (o.steps.map C01.stepToJson).toArray), ("reply", C01.replyToJson o.reply),
+          ("hist", match o.saved with | some h => histV2ToJson h | none => .null),
+          ("left", histV2ToJson o.obj)]).toArray)])
   | "ctx" =>
     let inRails ← railsOfJson (← j.getObjVal? "in")
     let outRails ← railsOfJson (← j.getObjVal? "out")
